@@ -58,6 +58,10 @@ let run () =
           | "owns" :: off :: _, r :: _ ->
             (match !st with None -> () | Some a -> incr ops; if ar_owns a (zi (int_of_string off)) <> (r = "true") then diverge "owns() differs from the model" line)
           | "mv" :: _, _ -> if calls <> [] then diverge "a move must not touch the block source" line
+          | "mfa" :: _, "done" :: _ ->
+            (match calls with
+             | [UA (sz, Some a); UF (a', sz')] when a = a' && sz = sz' -> ()
+             | _ -> diverge "assigning into a moved-from arena and destroying it must acquire and return exactly the fresh arena's block" line)
           | "destroy" :: _, _ ->
             (match !st with
              | None -> ()
